@@ -275,6 +275,12 @@ func (x *Exec) evalIdent(sc *specCtx, name string) Value {
 	if v, ok := sc.lookupVar(name); ok {
 		return v
 	}
+	if sc.pkg != nil && sc.pkg.Pkg.Scope().Lookup(name) != nil {
+		return x.pkgMember(sc, sc.pkg.Pkg, name)
+	}
+	if tn, ok := types.Universe.Lookup(name).(*types.TypeName); ok {
+		return TypeV{tn.Type()}
+	}
 	if sc.pkg != nil {
 		return x.pkgMember(sc, sc.pkg.Pkg, name)
 	}
